@@ -316,6 +316,11 @@ def run(ctx):
             n_numeric_only += 1
     if not outs.get("ok") or not (outs.get("refused-from", 0) + outs.get("refused-translate", 0)):
         raise TLCError("vacuity: outcomes %s" % outs)
+    # the binding must bite: a CANARY line (a recorded successful translation relabelled as a refusal) has to be rejected
+    can = dict(next(ln for ln in lines if ln["out"] == "ok"))
+    can["out"] = "refused-from"
+    lines.append(can)
+    owners.append({"canary": True, "fails": [], "src": None})
     # the trace specification is sequential per file: validate several files side by side
     from concurrent.futures import ThreadPoolExecutor
 
@@ -349,6 +354,11 @@ def run(ctx):
         for part_out in ex.map(validate, parts):
             tr.emitted = tr.emitted + part_out
     stricter = 0
+    if not any(owners[e["reject"] - 1].get("canary") for e in tr.emitted if "reject" in e):
+        raise TLCError("binding self-test failed: ExprTrace accepted the canary line (a successful translation relabelled as a refusal)")
+    ctx.by_kind["canary lines rejected by the trace specification"] = 1
+    tr.emitted = [e for e in tr.emitted if not ("reject" in e and owners[e["reject"] - 1].get("canary"))]
+    lines.pop()
     for rj in [e for e in tr.emitted if "reject" in e]:
         r = owners[rj["reject"] - 1]
         failed = sorted(rj["failed"])
